@@ -1,36 +1,42 @@
 import PsyVerif.Model.MiniF
 /-! # C01 — the reader's lowerings (fparser2.py) over MiniF
 
-Source-level constructs (`Src`): SELECT CASE, WHERE/ELSEWHERE over rank-1 arrays, DO with an
-optional step, IF/ELSE IF chains (nested `ifc`), array-section assignment; with their
-STANDARD semantics (`run`/`execSrc`).  `lower` mirrors `Fparser2Reader`:
+Source-level constructs (`Src`): SELECT CASE, WHERE/ELSEWHERE over rank-1 and rank-2 arrays (cells of
+the mask shape), DO with an optional step, DO WHILE / DO forever (fuel-bounded), IF/ELSE IF chains
+(nested `ifc`), named DO / IF constructs, EXIT / CYCLE / GO TO / labelled statements (`jump`),
+array-section assignment, array reductions; with their STANDARD semantics (`run`/`execSrc`).
+`lower` mirrors `Fparser2Reader`:
 `_case_construct_handler`/`_process_case_value_list`/`_process_case_value`,
 `_where_construct_handler`/`_array_syntax_to_indexed`/`_array_notation_rank`,
-`_do_construct_handler`/`_create_bounded_loop`, `_if_construct_handler`,
-`_subscript_triplet_handler`.  A refusal (NotImplementedError) yields `codeBlock src`,
-which the writer re-emits verbatim (semantics of the original statement).
+`_do_construct_handler` (WhileLoop; "construct name referred to inside" → CodeBlock)/
+`_create_bounded_loop`, `_if_construct_handler`, `_subscript_triplet_handler`.  A refusal
+(NotImplementedError) or an unsupported statement yields `codeBlock src`, which the writer re-emits
+verbatim (semantics of the original statement).
 
-MODE: the WHERE loop upper bound follows the FIXED code (fixes/C01-where-extent.patch):
-extent `upper - lower + 1` of the declared bounds instead of the declared upper bound.
+MODE: the WHERE loop upper bounds follow the FIXED code (fixes/C01-where-extent.patch, committed):
+extent `upper - lower + 1` of the declared bounds instead of the declared upper bound; construct
+names are compared case-insensitively (fixes/C01-construct-name-case.patch, committed).
 
 The type is one flat inductive (no nesting through `List Src`), all functions are
 structurally recursive, so concrete programs reduce under `decide`.  Core Lean only. -/
 namespace C01
 open MiniF
 
-/-- declared bounds of a rank-1 array; `typed` = the declaration became a PSyIR `ArrayType`
+/-- declared bounds of an array (`lo2:hi2` = second dimension of a rank-2 array, `0:0` for rank 1); `typed` = the declaration became a PSyIR `ArrayType`
 (literal non-negative bounds); otherwise it is an `UnsupportedFortranType` and the reader
 queries `SIZE`/`LBOUND` instead of using the declared shape. -/
 structure ArrDecl where
   lo : Int
   hi : Int
   typed : Bool
+  lo2 : Int
+  hi2 : Int
   deriving DecidableEq, Repr, Inhabited
 
 abbrev Env := List (Nat × ArrDecl)
 
 def Env.get : Env → Nat → ArrDecl
-  | [], _ => ⟨1, 0, true⟩
+  | [], _ => ⟨1, 0, true, 0, 0⟩
   | (b, d) :: rest, a => if a = b then d else Env.get rest a
 
 /-- a subscript triplet `lo:hi:st` with omitted parts (`(:)` = all `none`) -/
@@ -47,20 +53,28 @@ inductive CaseVal where
   | range (lo hi : Option Int)
   deriving DecidableEq, Repr, Inhabited
 
+/-- the array reductions (non-elemental intrinsics with a scalar result for a rank-1 array) -/
+inductive Red where
+  | sum | maxval | minval | product
+  deriving DecidableEq, Repr, Inhabited
+
 /-- array-valued (elemental) expressions of a WHERE / array assignment -/
 inductive AExpr where
   | scal (e : Expr)
   | sec (a : Nat) (s : Sec)
+  | sec2 (a : Nat) (s1 s2 : Sec)        -- section of a rank-2 array, a range in both dimensions
   | un (op : UnOp) (e : AExpr)
   | bin (op : BinOp) (a b : AExpr)
-  | sum (a : Nat)       -- SUM(a) of a whole rank-1 array: non-elemental, scalar result
-  | sumDim (a : Nat)    -- SUM(a, dim=1)
+  | red (k : Red) (a : Nat)       -- SUM(a) / MAXVAL(a) / … of a whole rank-1 array: non-elemental, scalar result
+  | redDim (k : Red) (a : Nat)    -- SUM(a, dim=1) / …: named `dim` argument
   deriving DecidableEq, Repr, Inhabited
 
+/-- `a(s) = rhs` (rank 1, `s2 = none`) or `a(s, s2) = rhs` (rank 2) -/
 structure WAssign where
   a : Nat
   s : Sec
   rhs : AExpr
+  s2 : Option Sec
   deriving DecidableEq, Repr, Inhabited
 
 /-- `WHERE (m) body [ELSEWHERE (m') body']* [ELSEWHERE body'']` -/
@@ -89,6 +103,15 @@ inductive Src where
   /-- array assignment `a(s) = rhs` outside a WHERE (kept as array notation by the reader) -/
   | arrAssign (tag a : Nat) (s : Sec) (rhs : AExpr)
   | codeBlock (s : Src)
+  /-- `DO WHILE (c)` / `DO` (no condition): a PSyIR `WhileLoop` -/
+  | doWhile (c : Option Expr) (body : Src)
+  /-- `name: DO … END DO name`; `inner` is the DO (counted or WHILE) -/
+  | namedDo (tag name : Nat) (inner : Src)
+  /-- `name: IF … END IF name` -/
+  | namedIf (name : Nat) (inner : Src)
+  /-- an unsupported statement: `kind` 0 = `EXIT [name]`, 1 = `CYCLE [name]`, 2 = `GO TO label`,
+  3 = a labelled statement (`label CONTINUE`); always a CodeBlock -/
+  | jump (tag kind : Nat) (name : Option Nat)
   deriving DecidableEq, Repr, Inhabited
 
 /-! ## Standard semantics -/
@@ -100,69 +123,118 @@ def secStride (s : Sec) : Int := s.st.getD 1
 def secExtent (env : Env) (a : Nat) (s : Sec) : Nat :=
   trip (secStart env a s) (secStop env a s) (secStride s)
 
+def secStart2 (env : Env) (a : Nat) (s : Sec) : Int := s.lo.getD (env.get a).lo2
+def secStop2 (env : Env) (a : Nat) (s : Sec) : Int := s.hi.getD (env.get a).hi2
+def secExtent2 (env : Env) (a : Nat) (s : Sec) : Nat :=
+  trip (secStart2 env a s) (secStop2 env a s) (secStride s)
+
 def arrExtent (env : Env) (a : Nat) : Nat := ((env.get a).hi - (env.get a).lo + 1).toNat
 
-/-- `σ(a,lo) + … + σ(a,lo+n-1)` -/
-def sumArr (σ : Store) (a : Nat) (lo : Int) : Nat → Int
-  | 0 => 0
-  | n+1 => sumArr σ a lo n + σ (a, lo + n, 0)
+def redBin : Red → BinOp
+  | .sum => .add
+  | .maxval => .max
+  | .minval => .min
+  | .product => .mul
 
-/-- value of an array expression at position `k` (0-based) of its shape -/
-def evalA (env : Env) (k : Nat) : AExpr → Store → Int
+/-- the reduction of `σ(a,lo) … σ(a,lo+n-1)`; MAXVAL/MINVAL start from the first element (their value for an
+empty array, `-HUGE`/`HUGE`, is outside the exactly representable domain) -/
+def redArr (k : Red) (σ : Store) (a : Nat) (lo : Int) : Nat → Int
+  | 0 => match k with
+    | .sum => 0
+    | .product => 1
+    | _ => σ (a, lo, 0)
+  | n+1 => evalBin (redBin k) (redArr k σ a lo n) (σ (a, lo + n, 0))
+
+/-- a position (0-based, per dimension) of the shape of a WHERE; rank 1 uses `(k, 0)` -/
+abbrev Cell := Nat × Nat
+
+/-- value of an array expression at cell `c` of its shape -/
+def evalA (env : Env) (c : Cell) : AExpr → Store → Int
   | .scal e, σ => eval e σ
-  | .sec a s, σ => σ (a, secStart env a s + k * secStride s, 0)
-  | .un op e, σ => evalUn op (evalA env k e σ)
-  | .bin op a b, σ => evalBin op (evalA env k a σ) (evalA env k b σ)
-  | .sum a, σ => sumArr σ a (env.get a).lo (arrExtent env a)
-  | .sumDim a, σ => sumArr σ a (env.get a).lo (arrExtent env a)
+  | .sec a s, σ => σ (a, secStart env a s + c.1 * secStride s, 0)
+  | .sec2 a s1 s2, σ =>
+    σ (a, secStart env a s1 + c.1 * secStride s1, secStart2 env a s2 + c.2 * secStride s2)
+  | .un op e, σ => evalUn op (evalA env c e σ)
+  | .bin op a b, σ => evalBin op (evalA env c a σ) (evalA env c b σ)
+  | .red k a, σ => redArr k σ a (env.get a).lo (arrExtent env a)
+  | .redDim k a, σ => redArr k σ a (env.get a).lo (arrExtent env a)
 
-/-- masked assignment `a(s) = rhs`: the RHS is evaluated completely (in `σ₀`) before any
-element is stored; elements `k < n` with `ctl k` are stored. -/
-def maskedStore (env : Env) (ctl : Nat → Bool) (w : WAssign) (σ₀ : Store) : Nat → Store → Store
-  | 0, τ => τ
-  | n+1, τ =>
-    let τ' := maskedStore env ctl w σ₀ n τ
-    if ctl n then τ'.set (w.a, secStart env w.a w.s + n * secStride w.s, 0) (evalA env n w.rhs σ₀) else τ'
+/-- the element of the LHS at cell `c` -/
+def lhsLoc (env : Env) (w : WAssign) (c : Cell) : Loc :=
+  (w.a, secStart env w.a w.s + c.1 * secStride w.s,
+    match w.s2 with
+    | none => 0
+    | some s2 => secStart2 env w.a s2 + c.2 * secStride s2)
 
-def maskedAssign (env : Env) (n : Nat) (ctl : Nat → Bool) (w : WAssign) (σ : Store) : Store :=
-  maskedStore env ctl w σ n σ
+/-- masked assignment: the RHS is evaluated completely (in `σ`) before any element is stored;
+the cells of `cs` selected by `ctl` are stored. -/
+def maskedAssign (env : Env) (cs : List Cell) (ctl : Cell → Bool) (w : WAssign) (σ : Store) : Store :=
+  cs.foldl (fun τ c => if ctl c then τ.set (lhsLoc env w c) (evalA env c w.rhs σ) else τ) σ
 
 /-- the assignments of one WHERE block, statement by statement over the whole mask -/
-def stdAssigns (env : Env) (n : Nat) (ctl : Nat → Bool) : List WAssign → Store → Store
+def stdAssigns (env : Env) (cs : List Cell) (ctl : Cell → Bool) : List WAssign → Store → Store
   | [], σ => σ
-  | w :: ws, σ => stdAssigns env n ctl ws (maskedAssign env n ctl w σ)
+  | w :: ws, σ => stdAssigns env cs ctl ws (maskedAssign env cs ctl w σ)
 
 /-- F2003 7.4.3.2: each mask is evaluated once, for all elements, when its WHERE /
 ELSEWHERE statement is executed; `pend` is the pending control mask. -/
-def stdClauses (env : Env) (n : Nat) (pend : Nat → Bool) : WClauses → Store → Store
+def stdClauses (env : Env) (cs : List Cell) (pend : Cell → Bool) : WClauses → Store → Store
   | .nil, σ => σ
   | .masked m body rest, σ =>
-    stdClauses env n (fun k => pend k && !(evalA env k m σ != 0)) rest
-      (stdAssigns env n (fun k => pend k && (evalA env k m σ != 0)) body σ)
-  | .final body, σ => stdAssigns env n pend body σ
+    stdClauses env cs (fun k => pend k && !(evalA env k m σ != 0)) rest
+      (stdAssigns env cs (fun k => pend k && (evalA env k m σ != 0)) body σ)
+  | .final body, σ => stdAssigns env cs pend body σ
 
-/-- first array section of an expression in pre-order (what `walk(ArrayMixin)` finds) -/
-def firstSec : AExpr → Option (Nat × Sec)
+/-- first array section of an expression in pre-order (what `walk(ArrayMixin)` finds); the
+second section is present for a rank-2 section -/
+def firstSec : AExpr → Option (Nat × Sec × Option Sec)
   | .scal _ => none
-  | .sec a s => some (a, s)
+  | .sec a s => some (a, s, none)
+  | .sec2 a s1 s2 => some (a, s1, some s2)
   | .un _ e => firstSec e
   | .bin _ a b => match firstSec a with
     | some r => some r
     | none => firstSec b
-  | .sum _ => none
-  | .sumDim _ => none
+  | .red _ _ => none
+  | .redDim _ _ => none
+
+/-- `[(0,k2), …, (n-1,k2)]` -/
+def rowCells (k2 : Nat) : Nat → List Cell
+  | 0 => []
+  | n+1 => rowCells k2 n ++ [(n, k2)]
+
+/-- the cells of an `n1 × n2` shape in array-element order (first index fastest) -/
+def cells (n1 : Nat) : Nat → List Cell
+  | 0 => []
+  | m+1 => cells n1 m ++ rowCells m n1
 
 /-- shape of the construct = shape of its mask (all sections of a standard-conforming WHERE
-have the same shape) -/
-def whereExtent (env : Env) : WClauses → Nat
+have the same shape): extent of dimension 1 and, for rank 2, of dimension 2 -/
+def whereShape (env : Env) : WClauses → Option (Nat × Option Nat)
   | .masked m _ _ => match firstSec m with
-    | some (a, s) => secExtent env a s
-    | none => 0
-  | _ => 0
+    | some (a, s, none) => some (secExtent env a s, none)
+    | some (a, s1, some s2) => some (secExtent env a s1, some (secExtent2 env a s2))
+    | none => none
+  | _ => none
+
+def shapeCells : Option (Nat × Option Nat) → List Cell
+  | none => []
+  | some (n1, none) => cells n1 1
+  | some (n1, some n2) => cells n1 n2
 
 /-- the standard semantics of a WHERE construct -/
 def execWhere (env : Env) (cl : WClauses) (σ : Store) : Store :=
-  stdClauses env (whereExtent env cl) (fun _ => true) cl σ
+  stdClauses env (shapeCells (whereShape env cl)) (fun _ => true) cl σ
+
+/-- the loop variables of the generated nest (`wv` = dimension 1, innermost; `wv + 1` = dimension 2)
+hold `extent + 1` after the loops; the inner one is untouched if the outer loop has no iteration -/
+def whereScratch (wv : Nat) (sh : Option (Nat × Option Nat)) (τ : Store) : Store :=
+  match sh with
+  | none => τ
+  | some (n1, none) => τ.set (wv, 0, 0) ((n1 : Int) + 1)
+  | some (n1, some n2) =>
+    if n2 = 0 then τ.set (wv + 1, 0, 0) 1
+    else (τ.set (wv, 0, 0) ((n1 : Int) + 1)).set (wv + 1, 0, 0) ((n2 : Int) + 1)
 
 def matchVal (logical : Bool) (v : Int) : CaseVal → Bool
   | .val c => if logical then ((v != 0) == (c != 0)) else v == c
@@ -170,39 +242,52 @@ def matchVal (logical : Bool) (v : Int) : CaseVal → Bool
     (match lo with | none => true | some l => decide (l ≤ v)) &&
     (match hi with | none => true | some h => decide (v ≤ h))
 
+/-- `DO WHILE`: at most `fuel` iterations (the semantics is fuel-bounded; every theorem holds for every fuel) -/
+def whileIter (f : Store → Store) (c : Expr) : Nat → Store → Store
+  | 0, σ => σ
+  | n+1, σ => if eval c σ ≠ 0 then whileIter f c n (f σ) else σ
+
 /-- One structural function for statements and case chains.  In statement position the
 `Bool`/`Int` arguments are ignored and the flag returned is `false`; on a case chain they are
 the selector kind and the selector VALUE (evaluated once by `selectCase`), and the flag
 tells whether a case matched.  The first matching case in textual order is executed (the
 standard forbids overlapping cases, so this is the unique match); the default body is
 executed iff no case matches, wherever `CASE DEFAULT` stands.  A lowered WHERE leaves
-`extent + 1` in its scratch loop variable; the source semantics does the same to `wv`
-(see `execWhere` for the semantics proper). -/
-def run (env : Env) : Src → Bool → Int → Store → Bool × Store
+`extent + 1` in its scratch loop variable(s); the source semantics does the same (`whereScratch`)
+(see `execWhere` for the semantics proper).  EXIT / CYCLE / GO TO are opaque to the model (identity):
+the lowering never moves or changes them, it only wraps them in CodeBlocks; their behaviour is
+checked end to end on the real code. -/
+def run (fuel : Nat) (env : Env) : Src → Bool → Int → Store → Bool × Store
   | .skip, _, _, σ => (false, σ)
-  | .seq a b, _, _, σ => (false, (run env b false 0 (run env a false 0 σ).2).2)
+  | .seq a b, _, _, σ => (false, (run fuel env b false 0 (run fuel env a false 0 σ).2).2)
   | .assign x e, _, _, σ => (false, σ.set (x, 0, 0) (eval e σ))
   | .store1 a i e, _, _, σ => (false, σ.set (a, eval i σ, 0) (eval e σ))
   | .store2 a i j e, _, _, σ => (false, σ.set (a, eval i σ, eval j σ) (eval e σ))
   | .ifc c t f, _, _, σ =>
-    (false, if eval c σ ≠ 0 then (run env t false 0 σ).2 else (run env f false 0 σ).2)
+    (false, if eval c σ ≠ 0 then (run fuel env t false 0 σ).2 else (run fuel env f false 0 σ).2)
   | .doc v lo hi st body, _, _, σ =>
     let s := match st with | none => 1 | some e => eval e σ
-    (false, runIters (fun τ => (run env body false 0 τ).2) v (eval lo σ) s
+    (false, runIters (fun τ => (run fuel env body false 0 τ).2) v (eval lo σ) s
       (trip (eval lo σ) (eval hi σ) s) 0 σ)
-  | .selectCase lg sel cases, _, _, σ => (false, (run env cases lg (eval sel σ) σ).2)
+  | .selectCase lg sel cases, _, _, σ => (false, (run fuel env cases lg (eval sel σ) σ).2)
   | .caseItem vals body rest, lg, v, σ =>
-    if vals.any (matchVal lg v) then (true, (run env body false 0 σ).2) else run env rest lg v σ
+    if vals.any (matchVal lg v) then (true, (run fuel env body false 0 σ).2) else run fuel env rest lg v σ
   | .caseDefault body rest, lg, v, σ =>
-    if (run env rest lg v σ).1 then run env rest lg v σ else (true, (run env body false 0 σ).2)
+    if (run fuel env rest lg v σ).1 then run fuel env rest lg v σ else (true, (run fuel env body false 0 σ).2)
   | .caseEnd, _, _, σ => (false, σ)
   | .whereC _ wv cl, _, _, σ =>
-    (false, (execWhere env cl σ).set (wv, 0, 0) ((whereExtent env cl : Int) + 1))
+    (false, whereScratch wv (whereShape env cl) (execWhere env cl σ))
   | .arrAssign _ a s rhs, _, _, σ =>
-    (false, maskedAssign env (secExtent env a s) (fun _ => true) ⟨a, s, rhs⟩ σ)
-  | .codeBlock s, _, _, σ => (false, (run env s false 0 σ).2)
+    (false, maskedAssign env (cells (secExtent env a s) 1) (fun _ => true) ⟨a, s, rhs, none⟩ σ)
+  | .codeBlock s, _, _, σ => (false, (run fuel env s false 0 σ).2)
+  | .doWhile c body, _, _, σ =>
+    (false, whileIter (fun τ => (run fuel env body false 0 τ).2)
+      (match c with | none => .lit 1 | some e => e) fuel σ)
+  | .namedDo _ _ inner, _, _, σ => (false, (run fuel env inner false 0 σ).2)
+  | .namedIf _ inner, _, _, σ => (false, (run fuel env inner false 0 σ).2)
+  | .jump _ _ _, _, _, σ => (false, σ)
 
-def execSrc (env : Env) (s : Src) (σ : Store) : Store := (run env s false 0 σ).2
+def execSrc (fuel : Nat) (env : Env) (s : Src) (σ : Store) : Store := (run fuel env s false 0 σ).2
 
 /-! ## The lowering -/
 
@@ -229,49 +314,67 @@ def Src.seqs : List Src → Src
   | s :: rest => .seq s (Src.seqs rest)
 
 /-- `is_lower_bound`/`is_upper_bound`/`is_full_range`: an omitted bound (LBOUND/UBOUND) or,
-for a typed declaration, a literal equal to the declared bound; step literal 1 -/
-def isFull (env : Env) (a : Nat) (s : Sec) : Bool :=
-  (match s.lo with | none => true | some l => (env.get a).typed && l == (env.get a).lo) &&
-  (match s.hi with | none => true | some h => (env.get a).typed && h == (env.get a).hi) &&
+for a typed declaration, a literal equal to the declared bound; step literal 1.
+`lo`/`hi` are the declared bounds of the dimension. -/
+def isFullD (typed : Bool) (lo hi : Int) (s : Sec) : Bool :=
+  (match s.lo with | none => true | some l => typed && l == lo) &&
+  (match s.hi with | none => true | some h => typed && h == hi) &&
   (match s.st with | none => true | some t => t == 1)
+
+def isFull (env : Env) (a : Nat) (s : Sec) : Bool :=
+  isFullD (env.get a).typed (env.get a).lo (env.get a).hi s
+def isFull2 (env : Env) (a : Nat) (s : Sec) : Bool :=
+  isFullD (env.get a).typed (env.get a).lo2 (env.get a).hi2 s
 
 /-- `lbound + widx - 1` -/
 def offIdx (b : Expr) (wv : Nat) : Expr := .bin .sub (.bin .add b (.var wv)) (.lit 1)
 
-/-- `_array_syntax_to_indexed`: index replacing a range.  Full range: relative to
-`LBOUND(a,1)`; otherwise relative to the section's start (its stride is IGNORED);
-a literal start `1` gives the bare loop index. -/
-def idxExpr (env : Env) (wv a : Nat) (s : Sec) : Expr :=
-  if isFull env a s then offIdx (.lit (env.get a).lo) wv
+/-- `_array_syntax_to_indexed`: index replacing a range of a dimension with declared lower bound
+`lo`.  Full range: relative to `LBOUND(a,d)`; otherwise relative to the section's start (its
+stride is IGNORED); a literal start `1` gives the bare loop index. -/
+def idxExprD (full : Bool) (lo : Int) (wv : Nat) (s : Sec) : Expr :=
+  if full then offIdx (.lit lo) wv
   else match s.lo with
-    | none => offIdx (.lit (env.get a).lo) wv
+    | none => offIdx (.lit lo) wv
     | some l => if l = 1 then .var wv else offIdx (litE l) wv
 
-/-- `SUM(a)` over the declared extent, as the exporter unrolls it -/
-def sumExpr (a : Nat) (lo : Int) : Nat → Expr
-  | 0 => .lit 0
-  | n+1 => .bin .add (sumExpr a lo n) (.idx1 a (.lit (lo + n)))
+def idxExpr (env : Env) (wv a : Nat) (s : Sec) : Expr :=
+  idxExprD (isFull env a s) (env.get a).lo wv s
+def idxExpr2 (env : Env) (wv a : Nat) (s : Sec) : Expr :=
+  idxExprD (isFull2 env a s) (env.get a).lo2 wv s
 
+/-- `SUM(a)` / `MAXVAL(a)` / … over the declared extent, as the exporter unrolls it -/
+def redExpr (k : Red) (a : Nat) (lo : Int) : Nat → Expr
+  | 0 => match k with
+    | .sum => .lit 0
+    | .product => .lit 1
+    | _ => .idx1 a (.lit lo)
+  | n+1 => .bin (redBin k) (redExpr k a lo n) (.idx1 a (.lit (lo + n)))
+
+/-- `wv` indexes dimension 1 and `wv + 1` dimension 2 -/
 def lowerA (env : Env) (wv : Nat) : AExpr → Expr
   | .scal e => e
   | .sec a s => .idx1 a (idxExpr env wv a s)
+  | .sec2 a s1 s2 => .idx2 a (idxExpr env wv a s1) (idxExpr2 env (wv + 1) a s2)
   | .un op e => .un op (lowerA env wv e)
   | .bin op a b => .bin op (lowerA env wv a) (lowerA env wv b)
-  | .sum a => sumExpr a (env.get a).lo (arrExtent env a)
-  | .sumDim a => sumExpr a (env.get a).lo (arrExtent env a)
+  | .red k a => redExpr k a (env.get a).lo (arrExtent env a)
+  | .redDim k a => redExpr k a (env.get a).lo (arrExtent env a)
 
-/-- upper bound of the loop over the mask shape (`mask_shape[..]` / `ArrayMixin._extent`) -/
-def whereUpper (env : Env) (a : Nat) (s : Sec) : Expr :=
-  let d := env.get a
-  if isFull env a s then
-    if d.typed then
-      (if d.lo = 1 then .lit d.hi else .bin .add (.bin .sub (.lit d.hi) (.lit d.lo)) (.lit 1))
-    else .lit (d.hi - d.lo + 1)
+/-- upper bound of the loop over one dimension of the mask shape (`mask_shape[..]` /
+`ArrayMixin._extent`).  `allFull`: every dimension of the mask's first array is a full range (its
+datatype is then the declared one); `lo`/`hi`: declared bounds of this dimension. -/
+def whereUpperD (typed allFull : Bool) (lo hi : Int) (s : Sec) : Expr :=
+  if allFull then
+    if typed then
+      (if lo = 1 then .lit hi else .bin .add (.bin .sub (.lit hi) (.lit lo)) (.lit 1))
+    else .lit (hi - lo + 1)
   else
-    let start := match s.lo with | none => Expr.lit d.lo | some l => litE l
-    let stop := match s.hi with | none => Expr.lit d.hi | some h => litE h
+    let start := match s.lo with | none => Expr.lit lo | some l => litE l
+    let stop := match s.hi with | none => Expr.lit hi | some h => litE h
     let unit := match s.st with | none => true | some t => t == 1
-    if s.lo == some 1 && unit then stop
+    if s.lo == none && s.hi == none && unit then .lit (hi - lo + 1)      -- `SIZE(a, dim)`
+    else if s.lo == some 1 && unit then stop
     else
       let ext := Expr.bin .sub stop start
       let r := match s.st with
@@ -279,16 +382,36 @@ def whereUpper (env : Env) (a : Nat) (s : Sec) : Expr :=
         | some t => if t == 1 then ext else .bin .div ext (litE t)
       .bin .add r (.lit 1)
 
+def whereUpper (env : Env) (a : Nat) (s : Sec) : Expr :=
+  whereUpperD (env.get a).typed (isFull env a s) (env.get a).lo (env.get a).hi s
+
 def hasSumDim : AExpr → Bool
   | .scal _ => false
   | .sec _ _ => false
+  | .sec2 _ _ _ => false
   | .un _ e => hasSumDim e
   | .bin _ a b => hasSumDim a || hasSumDim b
-  | .sum _ => false
-  | .sumDim _ => true
+  | .red _ _ => false
+  | .redDim _ _ => true
+
+/-- does the expression hold a section of the other rank (`r2` = the WHERE is of rank 2)?
+(`_array_syntax_to_indexed`: "array sections of differing ranks" → CodeBlock) -/
+def otherRank (r2 : Bool) : AExpr → Bool
+  | .scal _ => false
+  | .sec _ _ => r2
+  | .sec2 _ _ _ => !r2
+  | .un _ e => otherRank r2 e
+  | .bin _ a b => otherRank r2 a || otherRank r2 b
+  | .red _ _ => false
+  | .redDim _ _ => false
+
+def lhsIdx (env : Env) (wv : Nat) (w : WAssign) : Src :=
+  match w.s2 with
+  | none => .store1 w.a (idxExpr env wv w.a w.s) (lowerA env wv w.rhs)
+  | some s2 => .store2 w.a (idxExpr env wv w.a w.s) (idxExpr2 env (wv + 1) w.a s2) (lowerA env wv w.rhs)
 
 def lowerAssigns (env : Env) (wv : Nat) (ws : List WAssign) : Src :=
-  Src.seqs (ws.map fun w => .store1 w.a (idxExpr env wv w.a w.s) (lowerA env wv w.rhs))
+  Src.seqs (ws.map (lhsIdx env wv))
 
 /-- the ELSEWHERE chain as nested IFs -/
 def lowerClauses (env : Env) (wv : Nat) : WClauses → Src
@@ -296,23 +419,65 @@ def lowerClauses (env : Env) (wv : Nat) : WClauses → Src
   | .masked m body rest => .ifc (lowerA env wv m) (lowerAssigns env wv body) (lowerClauses env wv rest)
   | .final body => lowerAssigns env wv body
 
-/-- the refusals of `_where_construct_handler`/`_array_notation_rank` (→ CodeBlock): an array
-reduction with a `dim=` argument anywhere, or an assignment whose LHS is not a full range -/
-def refusedClauses (env : Env) : WClauses → Bool
+/-- LHS of the right rank with a full range in every dimension -/
+def lhsOk (env : Env) (r2 : Bool) (w : WAssign) : Bool :=
+  isFull env w.a w.s &&
+  (match w.s2 with
+   | none => !r2
+   | some s2 => r2 && isFull2 env w.a s2)
+
+def refusedAssigns (env : Env) (r2 : Bool) (ws : List WAssign) : Bool :=
+  ws.any (fun w => hasSumDim w.rhs || otherRank r2 w.rhs || !lhsOk env r2 w)
+
+/-- the refusals of `_where_construct_handler`/`_array_notation_rank`/`_array_syntax_to_indexed`
+(→ CodeBlock): an array reduction with a `dim=` argument anywhere, an assignment whose LHS is not a
+full range of the construct's rank, sections of differing ranks -/
+def refusedClauses (env : Env) (r2 : Bool) : WClauses → Bool
   | .nil => false
   | .masked m body rest =>
-    hasSumDim m || body.any (fun w => hasSumDim w.rhs || !isFull env w.a w.s) || refusedClauses env rest
-  | .final body => body.any (fun w => hasSumDim w.rhs || !isFull env w.a w.s)
+    hasSumDim m || otherRank r2 m || refusedAssigns env r2 body || refusedClauses env r2 rest
+  | .final body => refusedAssigns env r2 body
 
 def lowerWhere (env : Env) (wv : Nat) (cl : WClauses) : Option Src :=
   match cl with
   | .masked m _ _ =>
-    if refusedClauses env cl then none
-    else match firstSec m with
-      | none => none
-      | some (a, s) =>
-        some (.doc wv (.lit 1) (whereUpper env a s) (some (.lit 1)) (lowerClauses env wv cl))
+    match firstSec m with
+    | none => none
+    | some (a, s, none) =>
+      if refusedClauses env false cl then none
+      else some (.doc wv (.lit 1) (whereUpper env a s) (some (.lit 1)) (lowerClauses env wv cl))
+    | some (a, s1, some s2) =>
+      if refusedClauses env true cl then none
+      else
+        let d := env.get a
+        let allFull := isFull env a s1 && isFull2 env a s2
+        some (.doc (wv + 1) (.lit 1) (whereUpperD d.typed allFull d.lo2 d.hi2 s2) (some (.lit 1))
+          (.doc wv (.lit 1) (whereUpperD d.typed allFull d.lo d.hi s1) (some (.lit 1))
+            (lowerClauses env wv cl)))
   | _ => none
+
+/-- `_do_construct_handler`: is the construct name `n` referred to (by `EXIT n` / `CYCLE n`) anywhere
+inside?  (The code walks every `Name` of the parse tree of the construct, nested constructs and
+CodeBlocks included; construct names are distinct from all other names of the scoping unit.) -/
+def refersTo (n : Nat) : Src → Bool
+  | .skip => false
+  | .seq a b => refersTo n a || refersTo n b
+  | .assign _ _ => false
+  | .store1 _ _ _ => false
+  | .store2 _ _ _ _ => false
+  | .ifc _ t f => refersTo n t || refersTo n f
+  | .doc _ _ _ _ b => refersTo n b
+  | .selectCase _ _ cs => refersTo n cs
+  | .caseItem _ body rest => refersTo n body || refersTo n rest
+  | .caseDefault body rest => refersTo n body || refersTo n rest
+  | .caseEnd => false
+  | .whereC _ _ _ => false
+  | .arrAssign _ _ _ _ => false
+  | .codeBlock s => refersTo n s
+  | .doWhile _ b => refersTo n b
+  | .namedDo _ _ inner => refersTo n inner
+  | .namedIf _ inner => refersTo n inner
+  | .jump _ kind nm => (kind == 0 || kind == 1) && nm == some n
 
 /-- `lower`: in statement position call it as `low env s false (.lit 0) .skip`.  On a case
 chain `lg`/`sel` are the selector (re-evaluated in every test, as the code does) and `d` the
@@ -337,6 +502,14 @@ def low (env : Env) : Src → Bool → Expr → Src → Src
     | none => .codeBlock (.whereC tag wv cl)
   | .arrAssign tag a s rhs, _, _, _ => .codeBlock (.arrAssign tag a s rhs)
   | .codeBlock s, _, _, _ => .codeBlock s
+  | .doWhile c body, _, _, _ =>
+    .doWhile (some (match c with | none => .lit 1 | some e => e)) (low env body false (.lit 0) .skip)
+  -- a named DO whose name is referred to inside is kept as ONE CodeBlock; otherwise the name is dropped
+  | .namedDo tag name inner, _, _, _ =>
+    if refersTo name inner then .codeBlock (.namedDo tag name inner) else low env inner false (.lit 0) .skip
+  -- the name of an IF construct is always dropped
+  | .namedIf _ inner, _, _, _ => low env inner false (.lit 0) .skip
+  | .jump t k n, _, _, _ => .codeBlock (.jump t k n)
 
 def lower (env : Env) (s : Src) : Src := low env s false (.lit 0) .skip
 
@@ -347,6 +520,7 @@ def flat : Src → List Src → List Src
   | .seq a b, acc => flat a (flat b acc)
   | .ifc c t f, acc => .ifc c (Src.seqs (flat t [])) (Src.seqs (flat f [])) :: acc
   | .doc v lo hi st b, acc => .doc v lo hi st (Src.seqs (flat b [])) :: acc
+  | .doWhile c b, acc => .doWhile c (Src.seqs (flat b [])) :: acc
   | s, acc => s :: acc
 
 def norm (s : Src) : Src := Src.seqs (flat s [])
@@ -386,6 +560,10 @@ def wf : Src → Bool → Bool
   | .whereC _ _ _, c => !c
   | .arrAssign _ _ _ _, c => !c
   | .codeBlock s, c => !c && wf s false
+  | .doWhile _ b, c => !c && wf b false
+  | .namedDo _ _ inner, c => !c && wf inner false
+  | .namedIf _ inner, c => !c && wf inner false
+  | .jump _ _ _, c => !c
 
 def assignedArrs : WClauses → List Nat
   | .nil => []
@@ -402,29 +580,41 @@ def exprVars : Expr → List Nat
   | .un _ e => exprVars e
   | .bin _ a b => exprVars a ++ exprVars b
 
-/-- an expression is *elemental w.r.t. the assigned arrays `A`*: every section has unit
-stride, a section of an assigned array is aligned with the assignments (starts at the
-array's lower bound), no reduction reads an assigned array, scalar sub-expressions read
-neither an assigned array nor the loop variable. -/
-def elemA (env : Env) (A : List Nat) (wv : Nat) : AExpr → Bool
-  | .scal e => (exprVars e).all fun x => !A.contains x && x != wv
-  | .sec a s => secStride s == 1 && a != wv && (!A.contains a || secStart env a s == (env.get a).lo)
-  | .un _ e => elemA env A wv e
-  | .bin _ a b => elemA env A wv a && elemA env A wv b
-  | .sum a => !A.contains a && a != wv
-  | .sumDim a => !A.contains a && a != wv
+/-- an expression is *elemental w.r.t. the assigned arrays `A`* in a WHERE of rank 1 (`r2 = false`)
+or 2: every section has the construct's rank and unit strides, a section of an assigned array is
+aligned with the assignments (starts at the array's lower bounds), no reduction reads an assigned
+array, scalar sub-expressions read neither an assigned array nor a loop variable (`wv`, `wv + 1`). -/
+def elemA (env : Env) (A : List Nat) (wv : Nat) (r2 : Bool) : AExpr → Bool
+  | .scal e => (exprVars e).all fun x => !A.contains x && x != wv && x != wv + 1
+  | .sec a s =>
+    !r2 && secStride s == 1 && a != wv && a != wv + 1 &&
+      (!A.contains a || secStart env a s == (env.get a).lo)
+  | .sec2 a s1 s2 =>
+    r2 && secStride s1 == 1 && secStride s2 == 1 && a != wv && a != wv + 1 &&
+      (!A.contains a || (secStart env a s1 == (env.get a).lo && secStart2 env a s2 == (env.get a).lo2))
+  | .un _ e => elemA env A wv r2 e
+  | .bin _ a b => elemA env A wv r2 a && elemA env A wv r2 b
+  | .red _ a => !A.contains a && a != wv && a != wv + 1
+  | .redDim _ a => !A.contains a && a != wv && a != wv + 1
 
-def elemAssigns (env : Env) (A : List Nat) (wv : Nat) (ws : List WAssign) : Bool :=
-  ws.all fun w => isFull env w.a w.s && elemA env A wv w.rhs
+def elemAssigns (env : Env) (A : List Nat) (wv : Nat) (r2 : Bool) (ws : List WAssign) : Bool :=
+  ws.all fun w => lhsOk env r2 w && elemA env A wv r2 w.rhs
 
-def elemClauses (env : Env) (A : List Nat) (wv : Nat) : WClauses → Bool
+def elemClauses (env : Env) (A : List Nat) (wv : Nat) (r2 : Bool) : WClauses → Bool
   | .nil => true
-  | .masked m body rest => elemA env A wv m && elemAssigns env A wv body && elemClauses env A wv rest
-  | .final body => elemAssigns env A wv body
+  | .masked m body rest =>
+    elemA env A wv r2 m && elemAssigns env A wv r2 body && elemClauses env A wv r2 rest
+  | .final body => elemAssigns env A wv r2 body
+
+def whereRank2 (env : Env) (cl : WClauses) : Bool :=
+  match whereShape env cl with
+  | some (_, some _) => true
+  | _ => false
 
 /-- `WhereElemental`: the decidable side condition of `lower_where_sound_partial` -/
 def whereElemental (env : Env) (wv : Nat) (cl : WClauses) : Bool :=
-  !(assignedArrs cl).contains wv && elemClauses env (assignedArrs cl) wv cl
+  !(assignedArrs cl).contains wv && !(assignedArrs cl).contains (wv + 1) &&
+    elemClauses env (assignedArrs cl) wv (whereRank2 env cl) cl
 
 /-- every WHERE in the program is either refused (CodeBlock) or elemental -/
 def good (env : Env) : Src → Bool
@@ -442,5 +632,9 @@ def good (env : Env) : Src → Bool
   | .whereC _ wv cl => (lowerWhere env wv cl).isNone || whereElemental env wv cl
   | .arrAssign _ _ _ _ => true
   | .codeBlock _ => true
+  | .doWhile _ b => good env b
+  | .namedDo _ name inner => refersTo name inner || good env inner
+  | .namedIf _ inner => good env inner
+  | .jump _ _ _ => true
 
 end C01
